@@ -30,6 +30,9 @@ func c16Trans(thorough bool) func(c *Ctx, pre *Node, st Step, res *Result, post 
 				continue
 			}
 			errnos := []string{"EIO"}
+			if op.Kind == "readdir" {
+				errnos = append(errnos, "EACCES") // "cannot list it, skip it" is tempting exactly for this class
+			}
 			if op.Kind == "rename" {
 				// the errno classes a caller might be tempted to read as "somebody else has done it already"
 				errnos = append(errnos, "EACCES", "EEXIST")
@@ -40,7 +43,7 @@ func c16Trans(thorough bool) func(c *Ctx, pre *Node, st Step, res *Result, post 
 					errnos = append(errnos, "ENOSPC", "EACCES")
 				case "write", "mkdir":
 					errnos = append(errnos, "ENOSPC")
-				case "open", "readdir":
+				case "open":
 					errnos = append(errnos, "EACCES")
 				case "rename", "remove":
 					errnos = append(errnos, "EPERM")
